@@ -12,6 +12,37 @@ use tokio::sync::mpsc;
 
 const STEP_MS: u64 = 300;
 
+// ---- a request item whose Clone can cut the connection: KeepAlive::request clones the item once
+// per send attempt, so the second clone inside one request() call is the re-send right after a
+// successful reconnect -- cutting there starts the next outage *inside the same call*.
+static ARMED_CUTS: std::sync::atomic::AtomicU32 = std::sync::atomic::AtomicU32::new(0);
+static CLONES_IN_CALL: std::sync::atomic::AtomicU32 = std::sync::atomic::AtomicU32::new(0);
+static CUT_CLIENT: Mutex<Option<Client>> = Mutex::new(None);
+
+#[derive(Debug)]
+struct Armed(String);
+impl Clone for Armed {
+    fn clone(&self) -> Self {
+        use std::sync::atomic::Ordering::SeqCst;
+        let n = CLONES_IN_CALL.fetch_add(1, SeqCst) + 1;
+        if n >= 2 && ARMED_CUTS.load(SeqCst) > 0 {
+            ARMED_CUTS.fetch_sub(1, SeqCst);
+            let client = CUT_CLIENT.lock().unwrap().clone();
+            if let Some(c) = client {
+                tokio::task::block_in_place(|| tokio::runtime::Handle::current().block_on(c.verif_close_connection()));
+            }
+        }
+        Armed(self.0.clone())
+    }
+}
+#[derive(Clone)]
+struct ArmedCodec;
+impl MessageEncoder<Armed> for ArmedCodec {
+    fn encode(&self, item: Armed) -> anyhow::Result<Bytes> {
+        Ok(item.0.into())
+    }
+}
+
 struct ChanWriter(mpsc::UnboundedSender<String>);
 impl std::io::Write for ChanWriter {
     fn write(&mut self, buf: &[u8]) -> std::io::Result<usize> {
@@ -135,14 +166,15 @@ async fn spawn_under_test(kind: &str, client: &Client, topic: &str, tx: mpsc::Un
         "requestor" => {
             let mut r = client
                 .requestor(topic)
-                .with_request_encoder(StringCodec)
+                .with_request_encoder(ArmedCodec)
                 .with_reply_decoder(StringCodec)
                 .with_request_timeout(Duration::from_millis(200))?
                 .open()
                 .await?;
             tokio::spawn(async move {
                 loop {
-                    match r.request("ping".to_string()).await {
+                    CLONES_IN_CALL.store(0, std::sync::atomic::Ordering::SeqCst);
+                    match r.request(Armed("ping".to_string())).await {
                         Ok(_) => {
                             let _ = tx.send(Report::Progress);
                         }
@@ -255,6 +287,15 @@ async fn ka_case(certs_good: &Path, certs_bad: &Path, log: &EvLog, trace: &mut m
     let topic = format!("/vka{}/top{}", run % 1000, run);
     let client = connect_client(addr, certs_good, BackoffStrategy::constant().with_max_attempts(max).with_step(Duration::from_millis(STEP_MS))).await?;
     let (tx, mut rx) = mpsc::unbounded_channel();
+    *CUT_CLIENT.lock().unwrap() = Some(client.clone());
+    ARMED_CUTS.store(0, std::sync::atomic::Ordering::SeqCst);
+    // a requestor's later outages are started from inside the request() call that survived the
+    // previous one (see `Armed`): one armed cut per outage after the first that follows a success
+    let chained = kind == "requestor";
+    if chained {
+        let n = outages.iter().take(outages.len().saturating_sub(1)).filter(|o| o.last().map(|x| x == "ok").unwrap_or(false)).count();
+        ARMED_CUTS.store(n as u32, std::sync::atomic::Ordering::SeqCst);
+    }
     let task = spawn_under_test(kind, &client, &topic, tx).await?;
     while trace.try_recv().is_ok() {}
     let mut final_report: Option<String> = None;
@@ -298,8 +339,13 @@ async fn ka_case(certs_good: &Path, certs_bad: &Path, log: &EvLog, trace: &mut m
         if first == "fail" || first == "fatal" {
             prepare(first, &mut server, addr, certs_good, certs_bad, kind, &topic).await?;
         }
-        client.verif_close_connection().await;
-        log.emit("cut", json!({"outage": i + 1}));
+        if chained && i > 0 {
+            // the re-send after the previous reconnect cuts the connection itself
+            log.emit("cut", json!({"outage": i + 1, "mode": "inside_the_same_request_call"}));
+        } else {
+            client.verif_close_connection().await;
+            log.emit("cut", json!({"outage": i + 1}));
+        }
         let mut j = 0usize; // attempts seen in this outage
         let deadline = tokio::time::Instant::now() + Duration::from_secs(12);
         loop {
@@ -341,7 +387,9 @@ async fn ka_case(certs_good: &Path, certs_bad: &Path, log: &EvLog, trace: &mut m
             }
         }
         // let the stream settle before the next outage
-        tokio::time::sleep(Duration::from_millis(60)).await;
+        if !chained {
+            tokio::time::sleep(Duration::from_millis(60)).await;
+        }
     }
     // what does the stream report / does it work
     tokio::time::sleep(Duration::from_millis(100)).await;
@@ -370,6 +418,7 @@ async fn ka_case(certs_good: &Path, certs_bad: &Path, log: &EvLog, trace: &mut m
     };
     log.emit("final", json!({"status": status.chars().take(120).collect::<String>()}));
     task.abort();
+    *CUT_CLIENT.lock().unwrap() = None;
     server.stop();
     Ok(())
 }
